@@ -532,6 +532,7 @@ def execute(item):
     judged = {}
     shown = None
     by_sub = {}
+    subs = sorted(subs, key=lambda x: x[0] != "ir")   # ir.Model subs first: the proto subs look at their sibling
     for sub in subs:
         entry, api, fb = sub
         form = "ModelProto" if entry == "proto" else "ir.Model"
@@ -594,7 +595,8 @@ def execute(item):
         consistent = True
         if decl != t:
             consistent = False
-            if inlined_only and s != t:
+            sib = by_sub.get(json.dumps(["ir", api, fb])) if entry == "proto" else None
+            if inlined_only and s != t and sib not in ("converted", "mixture"):
                 # not converted at all (e.g. the C API gave up) but the functions are gone
                 bad("changed-on-refusal", form, "any", _cls_any(s, t),
                     {"exc": None, "log": r["log"][:2], "what": "no conversion happened (silent no-op) but the "
